@@ -59,7 +59,11 @@ BPP = {"a8r8g8b8": 32, "x8r8g8b8": 32, "a8b8g8r8": 32, "x8b8g8r8": 32, "b8g8r8a8
        "r8g8b8x8": 32, "x14r6g6b6": 32, "a2r10g10b10": 32, "x2r10g10b10": 32, "a2b10g10r10": 32, "x2b10g10r10": 32,
        "r8g8b8": 24, "b8g8r8": 24, "r5g6b5": 16, "b5g6r5": 16, "a1r5g5b5": 16, "x1r5g5b5": 16, "a4r4g4b4": 16,
        "x4b4g4r4": 16, "a8": 8, "r3g3b2": 8, "a2r2g2b2": 8, "x4a4": 8, "a4": 4, "r1g2b1": 4, "a1r1g1b1": 4, "a1": 1,
-       "rgba_float": 128, "rgb_float": 96}
+       "rgba_float": 128, "rgb_float": 96,
+       "a8r8g8b8_sRGB": 32, "a1b5g5r5": 16, "x1b5g5r5": 16, "x4r4g4b4": 16, "a4b4g4r4": 16, "b2g3r3": 8, "a2b2g2r2": 8,
+       "b1g2r1": 4, "a1b1g1r1": 4, "c8": 8, "g8": 8, "c4": 4, "g4": 4, "g1": 1}
+# every destination format of pixman.h (x4c4 / x4g4 share the codes of c8 / g8; yuy2 / yv12 cannot be destinations)
+ALL_FORMATS = sorted(BPP, key=lambda f: (-BPP[f], f))
 DIRECT = ["a8r8g8b8", "x8r8g8b8", "a8b8g8r8", "x8b8g8r8", "b8g8r8a8", "b8g8r8x8", "r8g8b8a8", "r8g8b8x8", "r5g6b5",
           "b5g6r5", "a8", "a1"]
 CHANVALS = [0, 0x00ff, 0x0100, 0x7fff, 0x8000, 0xff00, 0xffff]
@@ -121,6 +125,42 @@ def fill_scenarios(rng, quick):
                     # the source buffer uses the same geometry (positive stride, its own base)
                     lines.append("blt %d %d %d %d %d %d %d %d %d %d %d %d" %
                                  (sbpp, bpp, sw, stride, base, boff, sx, sy, x, y, w, h))
+            execs.append(lines)
+    return execs
+
+
+def all_format_scenarios(rng, quick):
+    """fill_boxes / fill_rectangles against compositing on EVERY destination format pixman can create (the whole list
+       of pixman.h: sRGB, 10-bit, float, 24-bit, 4/2/1-bit channels, palette formats), for the operators that may take the
+       direct-fill shortcut and for others, with mid-range colour channels (where a transfer function or a
+       palette shows)."""
+    execs = []
+    k = 0
+    for fmt in ALL_FORMATS:
+        for rep in range(1 if quick else 4):
+            w, h = (6, 3) if BPP[fmt] >= 64 else (9, 4)
+            st = min_stride(fmt, w)
+            if BPP[fmt] == 128:
+                st = (st + 15) // 16 * 16
+            lines = ["R af_%s_%d" % (fmt, k)]
+            k += 1
+            lines.append("D %s %d %d %d %d %d %d" % (fmt, w, h, st, 16, 32, rng.randrange(1 << 30)))
+            lines.append("C -1" if (k + rep) % 3 else "C 2 0 0 5 %d 6 1 %d %d" % (h, w, h))
+            lines.append("S")
+            mid = [0x8000, 0x4000, 0x2000]
+            calls = [("SRC", mid + [0xffff]), ("OVER", [0x4000, 0x8000, 0xc000, 0xffff]), ("CLEAR", mid + [0x8000]),
+                     ("SRC", [0x3000, 0x1000, 0x2000, 0x4000]), ("OVER", [0x2000, 0x3000, 0x1000, 0x8000]),
+                     ("ADD", [0x1000, 0x2000, 0x0800, 0x3000]), ("SRC", [rng.choice(CHANVALS[1:]) for _ in range(3)] + [0xffff]),
+                     (rng.choice(["IN", "XOR", "ATOP", "SCREEN", "DISJOINT_OVER"]), colour(rng))]
+            boxes = [[0, 0, w // 2, h], [w // 2, 0, w, h - 1], [1, 1, w - 1, h], [0, 0, w, h], [2, 0, w, h], [0, 0, w - 1, h],
+                     [-1, -1, w + 1, 2], [1, 0, w, h]]
+            for i, (op, col) in enumerate(calls):
+                b = boxes[i]
+                if i % 3 == 2:
+                    lines.append("fillrects %s %s 1 %d %d %d %d" % (op, " ".join(map(str, col)), max(b[0], 0), max(b[1], 0),
+                                                                  b[2] - max(b[0], 0), b[3] - max(b[1], 0)))
+                else:
+                    lines.append("fillboxes %s %s 1 %s" % (op, " ".join(map(str, col)), " ".join(map(str, b))))
             execs.append(lines)
     return execs
 
@@ -917,13 +957,13 @@ def history_scenarios(rng, quick, formats, n_per_format):
 
     def clip_line(role):
         r = rng.random()
-        if r < 0.12:
-            return "C %s -1" % role
         if r < 0.2:
+            return "%s %s -1" % (rng.choice(["C", "C16"]), role)
+        if r < 0.27:
             return "C %s 0" % role
         c = rng.choice([[[2, 1, 10, 5]], [[4, 2, 7, 4]], [[-1, -1, W + 1, H + 1]], [[0, 0, 3, 6], [9, 0, 12, 6]],
                         [[0, 0, 12, 2], [0, 4, 6, 6]], [[W, 0, W + 3, H]], [[1, 1, 5, 5], [3, 2, 11, 6], [6, 0, 8, 1]]])
-        return "C %s %d %s" % (role, len(c), " ".join(str(v) for b in c for v in b))
+        return "%s %s %d %s" % (rng.choice(["C", "C", "C16"]), role, len(c), " ".join(str(v) for b in c for v in b))
 
     for fmt in formats:
         st = min_stride(fmt, W) + (4 if k % 2 else 0)
@@ -992,7 +1032,7 @@ def history_scenarios(rng, quick, formats, n_per_format):
                         lines.append("A src a8 %d %d %d %d" % (W, H, rng.randint(-1, 2), rng.randint(-1, 2)))
                         lines.append("AO src %d %d" % (rng.randint(-1, 2), rng.randint(-1, 2)))
                 # make sure the final source clip state is decided by the last setters, then log it
-                if rng.random() < 0.6:
+                if rng.random() < 0.25:
                     lines.append("F src 1 1")
                 lines.append("S")
                 soff = rng.choice([(0, 0), (1, 0), (-1, 2)])
@@ -1006,6 +1046,94 @@ def history_scenarios(rng, quick, formats, n_per_format):
                 lines.append("ctraps %s a8 %d %d 0 0 1 %s" % (rng.choice(["OVER", "SRC", "ADD"]), -soff[0], -soff[1],
                                                              " ".join(map(str, trapezoid_for(rng, [0, 0, W, H], slant=False)))))
             execs.append(lines)
+    return execs
+
+
+def clip_flag_history_scenarios(rng, quick, formats):
+    """clip set -> dropped with NULL -> set again (16- and 32-bit setters) on source and mask, with set_source_clipping /
+       set_has_client_clip called before, between or after: the flags are independent properties that only their own
+       setters change, so the final clip is enabled for sources iff both flags were last set to TRUE."""
+    W, H = MW, MH
+    clipA = [[0, 0, 5, 6], [7, 1, 12, 5]]
+    clipB = [[2, 1, 9, 4]]
+    clipC = [[3, 0, 6, 6], [8, 2, 11, 6], [0, 4, 2, 6]]
+
+    def C(role, clip, bits16=False):
+        if clip is None:
+            return "%s %s -1" % ("C16" if bits16 else "C", role)
+        return "%s %s %d %s" % ("C16" if bits16 else "C", role, len(clip), " ".join(str(v) for b in clip for v in b))
+    orders = [  # (description, list of steps); F = set both flags TRUE; f10 / f01 / f00 other settings
+        ("flags_set_null_set", ["F11", "A", "N", "B"]),
+        ("set_flags_null_set", ["A", "F11", "N", "B"]),
+        ("null_flags_set", ["N", "F11", "B"]),
+        ("flags_null_null_set", ["F11", "N", "N", "C"]),
+        ("flags_set_null_cs_again_set", ["F11", "A", "N", "F1x", "B"]),
+        ("flags_set_null_set_flags_again", ["F11", "A", "N", "B", "F11"]),
+        ("flags_off_set_null_set", ["F10", "A", "N", "B"]),
+        ("flags_set_null_set_then_off", ["F11", "A", "N", "B", "F01"]),
+        ("flags_set_empty_set", ["F11", "A", "E", "C"]),
+        ("flags_set_null_final_none", ["F11", "A", "N"])]
+    execs = []
+    k = 0
+    for fmt in formats:
+        st = min_stride(fmt, W) + (4 if k % 2 else 0)
+        gb, ga = 2 * st + 16, 2 * st + 32
+        for role in ("src", "mask"):
+            for oname, steps in orders:
+                for bits16 in ((False, True) if not quick else ((k % 2 == 0),)):
+                    k += 1
+                    lines = ["R cf_%s_%s_%s_%d_%d" % (fmt, role, oname, 16 if bits16 else 32, k)]
+                    lines.append("I dst %s %d %d %d %d %d %d" % (fmt, W, H, st, gb, ga, rng.randrange(1 << 30)))
+                    if k % 3 == 0:
+                        lines.append(C("dst", [[0, 0, 8, 6], [9, 1, 12, 5]]))
+                    lines.append(rng.choice(["I src solid 65535 0 32768 65535", "I src bits a8r8g8b8 %d %d %d 1" % (W, H, rng.randrange(1 << 30)),
+                                             "I src bits x8r8g8b8 4 3 %d 1" % rng.randrange(1 << 30)]))
+                    if role == "mask" or k % 4 == 0:
+                        lines.append(rng.choice(["I mask bits a8 %d %d %d 0" % (W + 1, H + 1, rng.randrange(1 << 30)),
+                                                 "I mask solid 0 0 0 65535", "I mask bits a8r8g8b8 %d %d %d 1" % (W, H, rng.randrange(1 << 30))]))
+                    if "bits a8r8g8b8" in lines[-1] or ("bits a8r8g8b8" in lines[-2] and role == "src"):
+                        # an alpha map on the image, with a clip of its own that is set, dropped and set again (inert: flags off)
+                        tgt = "mask" if lines[-1].startswith("I mask bits a8r8g8b8") else "src" if lines[-1].startswith("I src") or lines[-2].startswith("I src bits a8r8g8b8") else None
+                        if tgt:
+                            lines.append("A %s a8 %d %d 0 0" % (tgt, W, H))
+                            lines += ["CA %s 1 1 1 4 4" % tgt, "CA %s -1" % tgt, "CA %s 1 0 0 3 3" % tgt]
+                    for g in GLYPHS:
+                        lines.append("G %d %s %d %d %d %d %d" % (g[0], g[1], g[2], g[3], g[4], g[5], rng.randrange(1 << 30)))
+                    for stp in steps:
+                        if stp == "A":
+                            lines.append(C(role, clipA, bits16))
+                        elif stp == "B":
+                            lines.append(C(role, clipB, bits16 and k % 4 != 1))
+                        elif stp == "C":
+                            lines.append(C(role, clipC, bits16))
+                        elif stp == "N":
+                            lines.append(C(role, None, bits16 if k % 3 else not bits16))
+                        elif stp == "E":
+                            lines.append(C(role, [], bits16))
+                        elif stp == "F11":
+                            lines.append("F %s 1 1" % role)
+                        elif stp == "F10":
+                            lines.append("F %s 1 0" % role)
+                        elif stp == "F01":
+                            lines.append("F %s 0 1" % role)
+                        elif stp == "F1x":          # set_source_clipping (TRUE) again; has_client_clip stays as it is (TRUE)
+                            lines.append("F %s 1 1" % role)
+                    lines.append("S")
+                    off = rng.choice([(0, 0), (1, 0), (-1, 1)])
+                    for b in ([0, 0, W, H], [-1, -1, W + 1, H + 1]):
+                        ix, iy = b[0] - off[0], b[1] - off[1]
+                        a = (ix, iy, b[0], b[1], b[0], b[1], b[2] - b[0], b[3] - b[1]) if role == "src" else \
+                            (b[0], b[1], ix, iy, b[0], b[1], b[2] - b[0], b[3] - b[1])
+                        lines.append("region %d %d %d %d %d %d %d %d" % a)
+                        lines.append("composite %s %d %d %d %d %d %d %d %d" % ((rng.choice(["SRC", "OVER", "ADD", "IN"]),) + a))
+                    if role == "src":
+                        lines.append("glyphsnm %s %d %d 0 0 3 1 3 3 0 6 4 2 9 1" % (rng.choice(["OVER", "SRC", "ADD"]), -off[0], -off[1]))
+                        lines.append("glyphs %s a8 %d %d 0 0 0 0 %d %d 2 1 3 3 0 6 4" % (rng.choice(["OVER", "ADD"]), -off[0], -off[1], W, H))
+                        mf = fmt if fmt in A_FORMATS else "a8"
+                        for op in ("ADD", "OVER"):
+                            lines.append("ctraps %s %s %d %d 0 0 1 %s" % (op, mf, -off[0], -off[1],
+                                                                         " ".join(map(str, trapezoid_for(rng, [0, 0, W, H], slant=False)))))
+                    execs.append(lines)
     return execs
 
 
@@ -1112,6 +1240,12 @@ def save_scripts(chk, execs_by_name):
             pass
 
 
+def header_rev():
+    """harness/frame_common.h is shared by both drivers but not part of vf.build_driver's hash: make it one"""
+    import hashlib
+    return ("-DFC_REV=0x%s" % hashlib.sha1(open(os.path.join(vf.HARNESS, "frame_common.h"), "rb").read()).hexdigest()[:8],)
+
+
 def rename(e, suffix):
     return ["R %s@%s" % (e[0][2:], suffix)] + e[1:]
 
@@ -1127,7 +1261,7 @@ def run(prop, args):
     drv = "drv_fill" if prop == "C19" else "drv_frame"
 
     if args.replay:
-        exe, px = vf.build_driver(drv, "plain")
+        exe, px = vf.build_driver(drv, "plain", cflags=header_rev())
         script = args.replay if args.replay.endswith(".script") else args.replay + ".script"
         first = open(script).readline()
         chain = first.split("=", 1)[1].strip() if first.startswith("# PIXMAN_DISABLE=") else ""
@@ -1144,7 +1278,7 @@ def run(prop, args):
         execs = fill_scenarios(rng, quick)
         fmts = DIRECT + ["r8g8b8", "a4", "a2r10g10b10", "a1r5g5b5", "a4r4g4b4", "r3g3b2", "x14r6g6b6", "rgba_float"]
         if not quick:
-            fmts += ["b8g8r8", "x2b10g10r10", "a2r2g2b2", "x4a4", "r1g2b1", "a1r1g1b1", "rgb_float", "x1r5g5b5", "x4b4g4r4"]
+            fmts = list(ALL_FORMATS)
         execs += fillboxes_scenarios(rng, quick, fmts, 3 if quick else 50)
         mfm = [DIRECT[args.seed % len(DIRECT)], rng.choice(["a1", "a8", "r5g6b5", "r8g8b8"])] if quick else \
             DIRECT + ["r8g8b8", "a4", "a2r10g10b10"]
@@ -1160,6 +1294,9 @@ def run(prop, args):
                                else DIRECT + ["r8g8b8", "a4", "a2r10g10b10", "rgba_float"])
         chk.extra["far_box_executions"] = len(fb)
         execs += fb
+        af = all_format_scenarios(rng, quick)
+        chk.extra["destination_formats_covered"] = len(ALL_FORMATS)
+        execs += af
         # structural sweep of fill / blt (depth x stride x x x width x height x stride sign): under every chain that has
         # a fill (each implementation has its own head / tail steps); a quarter of it where nothing is implemented
         fs = fill_structure_scenarios(rng, quick)
@@ -1192,6 +1329,8 @@ def run(prop, args):
         pfm = [rng.choice(["a8r8g8b8", "r5g6b5", "a8", "x8r8g8b8"])] if quick else ["a8r8g8b8", "x8r8g8b8", "r5g6b5", "a8", "a4", "r8g8b8"]
         directed = fill_matrix_scenarios(rng, quick, mfm, "frame") + draw_matrix_scenarios(rng, quick, dfm) \
             + presentation_matrix_scenarios(rng, quick, pfm) \
+            + clip_flag_history_scenarios(rng, quick, [rng.choice(["a8r8g8b8", "r5g6b5"]), "a8"] if quick
+                                          else ["a8r8g8b8", "x8r8g8b8", "r5g6b5", "a8", "a4", "r8g8b8"]) \
             + history_scenarios(rng, quick, [rng.choice(["a8r8g8b8", "r5g6b5"]), rng.choice(["a8", "a4", "r8g8b8"])] if quick
                                 else ["a8r8g8b8", "x8r8g8b8", "r5g6b5", "a8", "a4", "a1", "r8g8b8"], 30 if quick else 150)
         chk.extra["directed_matrix_executions"] = len(directed)
@@ -1202,7 +1341,7 @@ def run(prop, args):
     by_name = {e[0][2:]: e for ci in range(len(chains)) for e in per_chain(ci)}
 
     # 3. execute on the real library (built from /repo's working tree), one process per implementation chain
-    exe, px = vf.build_driver(drv, "plain")
+    exe, px = vf.build_driver(drv, "plain", cflags=header_rev())
     chk.extra["build"] = px["hash"]
     traces = []
     nb = (4 if prop == "C19" else 6) * (1 if quick else 4)
